@@ -10,6 +10,20 @@ CHECKS = {
          "Trusts harness/src/isa.rs as a faithful reading of the AVR Instruction Set Manual (tied to the encodings pinned by the repository's own tests by a self-test); operands are written as decimal literals / pc-relative expressions (spelling variation is C14's subject).",
          "DESIGN.md §5 C01"),
 }
+CHECKS.update({
+ "C04": ("bounded-exhaustive negative-space enumeration with a three-way oracle (legal / illegal / convention-dependent) from the independent ISA reference",
+         "For every mnemonic each operand position is swept over its whole window (all 32 registers, immediates/ports/bits/displacements/addresses far beyond both ends of the legal range incl. negatives, every pointer form) inside frames for the other positions, plus operand-kind confusions, operand-count confusions, bad register names and the reduced core (~130k single-instruction builds in quick, x10 windows in thorough). Tuples the ISA cannot encode must yield an error value (a panic counts as a violation); legal tuples must give the reference words; convention-dependent spellings may do either.",
+         "Trusts isa::assemble's legality judgement (AVR manual ranges and register classes). Negative 8-bit immediates -128..-1, `ld r,Y+q`, `ldd r,Y` and `spm Z+` are classified convention-dependent so the check never demands more than the statement.",
+         "DESIGN.md §5 C04"),
+ "C05": ("operator grid + proptest expression trees against a checked-i64 reference evaluator, minimal-parenthesis rendering",
+         "Every binary operator on a 30x30 grid of boundary operands, every unary operator and function on 30 operands, all literal spellings and character literals (22k cases), plus 100k (quick) / 3M (thorough) generated expression trees over literals, .equ symbols defined before/after and labels, rendered with only the parentheses the documented precedence table requires and observed through `.dq`. Values must match the reference; division/remainder by zero, arithmetic overflow and out-of-range shift counts must fail the build.",
+         "Reference evaluator in harness/src/model.rs (documented AVR assembler operator table on checked i64). Tolerated where the documentation is silent: >> of a negative operand, exp2(63), log2/page not checked.",
+         "DESIGN.md §5 C05"),
+ "C13": ("exhaustive device x instruction-form enumeration against the documented meaning of the feature flags",
+         "Every device of the tool's own table x every instruction form (each mnemonic, each X/Y/Z pointer form, each lpm/elpm form) with three operand tuples per form: forms the device lacks according to its flags must fail the build; every other form must assemble to the same words as the independent encoder gives (one-word lds/sts on reduced cores). Exhaustive over device x form.",
+         "Feature flags are read from the tool's table (the property defers to it); their meaning is taken from the AVR/avra documentation in isa::gate. Operand tuples per form are sampled (3), forms and devices are complete.",
+         "DESIGN.md §5 C13"),
+})
 NOT_YET = {}
 
 def main():
